@@ -377,6 +377,14 @@ let run_case (toks : sx list) : string =
       let ih = n_of_string "1311768467294899695" in
       Printf.sprintf "%s:%s:%s:%s:%s" hex (string_of_n (M.table_hash m)) (string_of_n (M.interface_hash m))
         (string_of_n (M.method_selector false ih m)) (string_of_n (M.method_selector true ih m))
+  (* endian W BITS : the four conversions of a w-byte object *)
+  | [A "endian"; A kind; A bits] ->
+      let w = (match kind with "u8" | "i8" -> 1 | "u16" | "i16" -> 2 | "u32" | "i32" | "f32" -> 4 | _ -> 8) in
+      let v = n_of_string bits in
+      let wn = nat_of_int w in
+      let fl = M.host_from_little wn v and tl = M.host_to_little wn v and fb = M.host_from_big wn v and tb = M.host_to_big wn v in
+      Printf.sprintf "fl=%s tl=%s fb=%s tb=%s rtb=%s rtl=%s" (string_of_n fl) (string_of_n tl) (string_of_n fb) (string_of_n tb)
+        (string_of_n (M.host_to_big wn fb)) (string_of_n (M.host_from_little wn tl))
   (* fungrow T: model IsFungible<T, Tj> for every pool type Tj in pool order *)
   | [A "fungrow"; A tid] ->
       let t = ty_named tid in
